@@ -63,12 +63,12 @@ func zzConfig() Config { return Config{} }
 // zzFollowerOver builds a real follower controller (real constructor, real DB) over a model WAL and
 // model KV holding `n` synced entries of the ghost log and the persisted term.
 func zzFollowerOver(w *zzWal, m *zzKV, term int64) *followerController {
-	d, err := kv.NewDB("zz", 1, &zzFactory{m}, 0, nil)
+	d, err := kv.NewDB("zz", 1, &zzFactory{kv: m}, 0, nil)
 	vAssert("db-open", err == nil)
 	if term >= 0 {
 		vAssert("term-store", d.UpdateTerm(term, kv.TermOptions{}) == nil)
 	}
-	fc, err := NewFollowerController(zzConfig(), "zz", 1, &zzWalFactory{w}, &zzFactory{m})
+	fc, err := NewFollowerController(zzConfig(), "zz", 1, &zzWalFactory{w}, &zzFactory{kv: m})
 	vAssert("follower-open", err == nil)
 	return fc.(*followerController)
 }
@@ -181,6 +181,84 @@ func ZZFollowerNewTerm(n, unsynced int) {
 		vAssert("log-does-not-grow", w.appends == before)
 		_, terr := fc.Truncate(&proto.TruncateRequest{Term: T, HeadEntryId: &proto.EntryId{Term: T, Offset: 0}})
 		vAssert("old-term-truncate-rejected", terr != nil)
+	}
+	vReach("end")
+}
+
+// ---- snapshot installation
+
+type zzSnapStream struct {
+	grpc.ServerStream
+	chunks []*proto.SnapshotChunk
+	pos    int
+	resp   *proto.SnapshotResponse
+	closed int
+}
+
+func (s *zzSnapStream) Context() context.Context { return context.Background() }
+func (s *zzSnapStream) Recv() (*proto.SnapshotChunk, error) {
+	if s.pos >= len(s.chunks) {
+		return nil, io.EOF
+	}
+	c := s.chunks[s.pos]
+	s.pos++
+	return c, nil
+}
+func (s *zzSnapStream) SendAndClose(r *proto.SnapshotResponse) error {
+	s.resp = r
+	s.closed++
+	return nil
+}
+
+// ZZFollowerSnapshot (C03 / C04): a follower in term T with n log entries receives a snapshot stream
+// whose chunks carry an arbitrary term. A snapshot of another term must be refused and must leave the
+// node's log and database alone; an accepted one leaves an empty WAL, the snapshot's commit offset as
+// head and commit offset, and the term persisted before the response.
+func ZZFollowerSnapshot(n, fenced int) {
+	T := int64(3)
+	w := zzNewWal("f")
+	for i := 0; i < n; i++ {
+		_ = w.AppendAsync(zzPutEntry(i, 2, byte(i)))
+	}
+	w.lastSynced = w.lastAppended
+	m := &zzKV{}
+	// the snapshot: a database whose commit offset is 7
+	sm := &zzKV{}
+	sd, _ := kv.NewDB("zz", 1, &zzFactory{kv: sm}, 0, nil)
+	_, _ = sd.ProcessWrite(&proto.WriteRequest{Puts: []*proto.PutRequest{{Key: "s", Value: []byte{1}}}}, 7, 100, WrapperUpdateOperationCallback)
+	d, _ := kv.NewDB("zz", 1, &zzFactory{kv: m}, 0, nil)
+	_ = d.UpdateTerm(T, kv.TermOptions{})
+	fci, err := NewFollowerController(zzConfig(), "zz", 1, &zzWalFactory{w}, &zzFactory{kv: m, snap: sm.ents})
+	vAssert("open", err == nil)
+	fc := fci.(*followerController)
+	if fenced == 0 {
+		_, terr := fc.Truncate(&proto.TruncateRequest{Term: T, HeadEntryId: &proto.EntryId{Term: 2, Offset: int64(n - 1)}})
+		vAssert("following", terr == nil && fc.status == proto.ServingStatus_FOLLOWER)
+	}
+	ct := vInt64("chunkTerm")
+	vAssume(ct >= 0)
+	vAssume(ct < 100)
+	st := &zzSnapStream{chunks: []*proto.SnapshotChunk{{Term: ct, Name: "f", ChunkIndex: 0, ChunkCount: 1, Content: []byte{1}}}}
+	serr := fc.SendSnapshot(st)
+	if ct != T {
+		vReach("other-term")
+		vAssert("snapshot-of-another-term-refused", serr != nil && st.closed == 0)
+		vAssert("term-unchanged", fc.term == T)
+		if vKnown("KF-C04-stale-snapshot-wipes-log", w.lastAppended != int64(n-1)) {
+			vAssert("refused-snapshot-leaves-log-alone", w.lastAppended == int64(n-1))
+		} else {
+			vAssert("refused-snapshot-leaves-log-alone", w.lastAppended == int64(n-1))
+		}
+	} else {
+		vReach("installed")
+		vAssert("accepted", serr == nil && st.closed == 1)
+		vAssert("ack-is-snapshot-commit-offset", st.resp.AckOffset == 7)
+		vAssert("wal-emptied", w.lastAppended == -1)
+		vAssert("head-and-commit-are-the-snapshot's", fc.lastAppendedOffset == 7 && fc.commitOffset.Load() == 7)
+		pt, _, perr := fc.db.ReadTerm()
+		vAssert("term-persisted", perr == nil && pt == T)
+		gr, gerr := fc.db.Get(&proto.GetRequest{Key: "s", IncludeValue: true})
+		vAssert("snapshot-content-installed", gerr == nil && gr.Status == proto.Status_OK)
 	}
 	vReach("end")
 }
